@@ -90,4 +90,21 @@ example : asRTUErrorPacketWithCRC ⟨withCrc [0x0a, 0x83, 0x02], []⟩ = .ok (so
 example : asRTUErrorPacketWithCRC ⟨[0x0a, 0x83, 0x02, 177, 51], []⟩ = .ok (some (.excR 0x0a 3 2)) ∧
     asRTUErrorPacketWithCRC ⟨[0x0a, 0x83, 0x02, 51, 177], []⟩ = .ok none := by decide +kernel
 
+/-- **too short to carry a checksum**: fewer than four bytes (no bytes at all included) are refused by both
+CRC-verifying parsers with an error - neither accepted nor answered with a panic -, whatever lies behind them in memory -/
+theorem too_short_refused (v sp : Bytes) (h : v.length < 4) :
+    parseRTURequestWithCRC ⟨v, sp⟩ = .err .plain ∧ parseRTUResponseWithCRC ⟨v, sp⟩ = .err .plain := by
+  unfold parseRTURequestWithCRC parseRTUResponseWithCRC
+  simp only [h, if_true, and_self]
+
+/-- ... and five bytes the CRC-verifying recogniser does not accept are no error of any kind (`nil`): four or fewer,
+six or more, or a trailer that is not the CRC of the first three -/
+theorem recogniser_other_lengths (v sp : Bytes) (h : v.length ≠ 5) :
+    asRTUErrorPacketWithCRC ⟨v, sp⟩ = .ok none := by
+  unfold asRTUErrorPacketWithCRC
+  simp only [ne_eq, h, not_false_eq_true, if_true]
+
+example : parseRTUResponseWithCRC ⟨[], [0xEE, 0xEE]⟩ = .err .plain ∧ parseRTURequestWithCRC ⟨[7], []⟩ = .err .plain := by
+  decide
+
 end Modbus.Properties.C03
